@@ -108,6 +108,34 @@ fn short_debug(m: &Message) -> String {
     }
 }
 
+/// the frame-level clauses of C09, applied to one returned frame
+pub fn well_formed(ctx: &mut Ctx, m: &Message, f: &[u8], builder: &'static str) {
+    let num = m.number();
+    let mut bad: Option<(&'static str, String)> = None;
+    if num.is_none() {
+        bad = Some(("no_wire_form_accepted", format!("{} was encoded", msg_class(m))));
+    } else if f.len() < 8 || f.len() > 1029 {
+        bad = Some(("length_range", format!("frame length {}", f.len())));
+    } else if f[0] != 0xD3 {
+        bad = Some(("preamble", format!("first byte {:#x}", f[0])));
+    } else if f[1] & 0xFC != 0 {
+        bad = Some(("reserved_bits", format!("byte 1 = {:#x}", f[1])));
+    } else if ((((f[1] & 3) as usize) << 8) | f[2] as usize) != f.len() - 6 {
+        bad = Some(("length_field", format!("length field {} but payload {}", (((f[1] & 3) as usize) << 8) | f[2] as usize, f.len() - 6)));
+    } else if bits::read(f, 24, 12) as u16 != num.unwrap() {
+        bad = Some(("message_number", format!("first 12 payload bits {} but message is {}", bits::read(f, 24, 12), num.unwrap())));
+    } else {
+        let c = crc::crc24q(&f[..f.len() - 3]);
+        let t = ((f[f.len() - 3] as u32) << 16) | ((f[f.len() - 2] as u32) << 8) | f[f.len() - 1] as u32;
+        if c != t {
+            bad = Some(("checksum", format!("trailing {:06x}, reference CRC-24Q {:06x}", t, c)));
+        }
+    }
+    if let Some((what, detail)) = bad {
+        ctx.violation(format!("C09.well_formed|{}|{}", what, builder), "C09.well_formed", format!("{} ({}): {}; frame={}; message={}", what, builder, detail, hex_short(f), short_debug(m)), msg_replay(m));
+    }
+}
+
 /// C09 oracle on one message.  Returns the encoder result for reuse.
 pub fn judge_c09(ctx: &mut Ctx, m: &Message, on: bool) -> Option<Result<Vec<u8>, String>> {
     let num = m.number();
@@ -128,29 +156,7 @@ pub fn judge_c09(ctx: &mut Ctx, m: &Message, on: bool) -> Option<Result<Vec<u8>,
     match &r {
         Ok(f) => {
             ctx.count("encode_ok");
-            let mut bad: Option<(&'static str, String)> = None;
-            if num.is_none() {
-                bad = Some(("no_wire_form_accepted", format!("{} was encoded", msg_class(m))));
-            } else if f.len() < 8 || f.len() > 1029 {
-                bad = Some(("length_range", format!("frame length {}", f.len())));
-            } else if f[0] != 0xD3 {
-                bad = Some(("preamble", format!("first byte {:#x}", f[0])));
-            } else if f[1] & 0xFC != 0 {
-                bad = Some(("reserved_bits", format!("byte 1 = {:#x}", f[1])));
-            } else if ((((f[1] & 3) as usize) << 8) | f[2] as usize) != f.len() - 6 {
-                bad = Some(("length_field", format!("length field {} but payload {}", (((f[1] & 3) as usize) << 8) | f[2] as usize, f.len() - 6)));
-            } else if bits::read(f, 24, 12) as u16 != num.unwrap() {
-                bad = Some(("message_number", format!("first 12 payload bits {} but message is {}", bits::read(f, 24, 12), num.unwrap())));
-            } else {
-                let c = crc::crc24q(&f[..f.len() - 3]);
-                let t = ((f[f.len() - 3] as u32) << 16) | ((f[f.len() - 2] as u32) << 8) | f[f.len() - 1] as u32;
-                if c != t {
-                    bad = Some(("checksum", format!("trailing {:06x}, reference CRC-24Q {:06x}", t, c)));
-                }
-            }
-            if let Some((what, detail)) = bad {
-                ctx.violation(format!("C09.well_formed|{}", what), "C09.well_formed", format!("{}: {}; frame={}; message={}", what, detail, hex_short(f), short_debug(m)), msg_replay(m));
-            }
+            well_formed(ctx, m, f, "fresh_builder");
         }
         Err(e) => {
             ctx.count_dyn(format!("encode_err:{}", e));
@@ -254,9 +260,42 @@ pub fn judge_c01_fixed_point(ctx: &mut Ctx, d: &Message, r: &[u8], frame: &[u8])
     }
 }
 
+thread_local! {
+    /// one long-lived builder per worker: C09's frame-level clauses are also checked on the
+    /// output of a builder that has already built (and failed to build) other messages
+    static REUSED: std::cell::RefCell<MessageBuilder> = std::cell::RefCell::new(MessageBuilder::new());
+}
+
+fn judge_c09_reused(ctx: &mut Ctx, m: &Message) {
+    let r = guard(|| {
+        REUSED.with(|b| {
+            let mut b = b.borrow_mut();
+            b.build_message(m).ok().map(|f| f.to_vec())
+        })
+    });
+    match r {
+        Ok(Some(f)) => {
+            ctx.count("frames_from_reused_builder_checked");
+            well_formed(ctx, m, &f, "reused_builder");
+        }
+        Ok(None) => {}
+        Err(_) => {
+            // a panic may leave the RefCell borrowed or the builder in any state: start over
+            REUSED.with(|b| {
+                if let Ok(mut g) = b.try_borrow_mut() {
+                    *g = MessageBuilder::new();
+                }
+            });
+        }
+    }
+}
+
 pub fn judge_message(ctx: &mut Ctx, m: &Message, which: Which, origin: &'static str) -> bool {
     ctx.eval();
     let r = judge_c09(ctx, m, which == Which::C09);
+    if which == Which::C09 {
+        judge_c09_reused(ctx, m);
+    }
     let mut accepted = false;
     if let Some(Ok(r1)) = &r {
         accepted = true;
